@@ -108,36 +108,85 @@ def gen_op(rng, n, cplx):
     return {"kind": "matrix", "m": m, "M": enc(dy(rng, (m, n), cplx))}
 
 
-def gen_tree(rng, n, cplx, depth):
-    """random functional expression on a flat argument of size n"""
+def gen_nlop(rng, n, cplx):
+    """nonlinear operator F(x) = A x + B conj(x) + (C x)^2 + c (entrywise square), small coefficients"""
+    m = int(rng.integers(1, 4))
+    z = np.zeros((m, n), dtype=np.complex128 if cplx else np.float64)
+    A = dy(rng, (m, n), cplx)
+    B = dy(rng, (m, n), cplx, scale=1.0) if rng.random() < 0.5 else z
+    C = dy(rng, (m, n), cplx, bits=2, scale=1.0) if rng.random() < 0.75 else z
+    return {"kind": "op", "m": m, "A": enc(A), "B": enc(B), "C": enc(C), "c": enc(dy(rng, (m,), cplx))}
+
+
+def gen_op_pos(rng, n):
+    """operator with positive real entries (PoissonLoss needs A x > 0 for x > 0)"""
+    kind = ["none", "diag", "matrix"][int(rng.integers(3))]
+    if kind == "none":
+        return {"kind": "none", "m": n}
+    if kind == "diag":
+        return {"kind": "diag", "m": n, "d": enc(np.abs(dy(rng, (n,), False)) + 0.25)}
+    m = int(rng.integers(1, 5))
+    return {"kind": "matrix", "m": m, "M": enc(np.abs(dy(rng, (m, n), False)) + 0.25)}
+
+
+def gen_tree(rng, n, cplx, depth, inner=False):
+    """random functional expression on a flat argument of size n (`inner`: the argument is a residual
+    A x - y, so nodes that need a positive argument are not generated)"""
     if depth <= 0:
         return gen_leaf(rng, n)
     r = rng.random()
     if r < 0.18:
         return gen_leaf(rng, n)
     if r < 0.38:
-        return {"k": "mul", "c": dyscalar(rng), "side": "l" if rng.random() < 0.5 else "r", "f": gen_tree(rng, n, cplx, depth - 1)}
+        return {"k": "mul", "c": dyscalar(rng), "side": "l" if rng.random() < 0.5 else "r", "f": gen_tree(rng, n, cplx, depth - 1, inner)}
     if r < 0.50:
-        return {"k": "add", "f": gen_tree(rng, n, cplx, depth - 1), "g": gen_tree(rng, n, cplx, depth - 1)}
+        return {"k": "add", "f": gen_tree(rng, n, cplx, depth - 1, inner), "g": gen_tree(rng, n, cplx, depth - 1, inner)}
     if r < 0.58:
         # division: defined for losses only; applied to a loss node here
-        inner = gen_lossnode(rng, n, cplx, depth - 1)
+        node = gen_lossnode(rng, n, cplx, depth - 1, inner)
         c = dyscalar(rng)
-        return {"k": "div", "c": c, "f": inner}
-    return gen_lossnode(rng, n, cplx, depth - 1)
+        return {"k": "div", "c": c, "f": node}
+    return gen_lossnode(rng, n, cplx, depth - 1, inner)
 
 
-def gen_lossnode(rng, n, cplx, depth):
+def gen_poisson_tree(rng, n):
+    """a PoissonLoss (real data), bare or scaled / divided / summed with a smooth functional"""
+    op = gen_op_pos(rng, n)
+    t = {"k": "poisson", "s": dyscalar(rng), "op": op, "y": [float(v) for v in np.abs(common.dyadic(rng, (op["m"],), bits=0, scale=4.0))]}
+    r = rng.random()
+    if r < 0.25:
+        t = {"k": "mul", "c": dyscalar(rng), "side": "l" if rng.random() < 0.5 else "r", "f": t}
+    elif r < 0.45:
+        t = {"k": "div", "c": dyscalar(rng), "f": t}
+    elif r < 0.7:
+        t = {"k": "add", "f": t, "g": gen_tree(rng, n, False, 1)}
+    return t
+
+
+def _gen_w(rng, m):
+    return None if rng.random() < 0.4 else [float(v) for v in np.abs(common.dyadic(rng, (m,), bits=2, scale=2.0))]
+
+
+def gen_lossnode(rng, n, cplx, depth, inner=False):
+    r = rng.random()
+    if r < 0.74 and r >= 0.68 and not cplx and not inner:
+        op = gen_op_pos(rng, n)
+        return {"k": "poisson", "s": dyscalar(rng), "op": op, "y": [float(v) for v in np.abs(common.dyadic(rng, (op["m"],), bits=0, scale=4.0))]}
+    if 0.50 <= r < 0.58:
+        F = gen_nlop(rng, n, cplx)
+        return {"k": "sqL2LossOp", "s": dyscalar(rng), "F": F, "y": enc(dy(rng, (F["m"],), cplx)), "w": _gen_w(rng, F["m"])}
+    if 0.58 <= r < 0.68:
+        F = gen_nlop(rng, n, cplx)
+        return {"k": "lossOp", "s": dyscalar(rng), "F": F, "y": enc(dy(rng, (F["m"],), cplx)), "f": gen_tree(rng, F["m"], cplx, depth - 1, True)}
     op = gen_op(rng, n, cplx)
     m = op["m"]
-    r = rng.random()
-    if r < 0.4:
-        w = None if rng.random() < 0.4 else [float(v) for v in np.abs(common.dyadic(rng, (m,), bits=2, scale=2.0))]
-        return {"k": "sqL2Loss", "s": dyscalar(rng), "op": op, "y": enc(dy(rng, (m,), cplx)), "w": w}
-    if r < 0.55:
-        w = None if rng.random() < 0.4 else [float(v) for v in np.abs(common.dyadic(rng, (m,), bits=2, scale=2.0))]
-        return {"k": "sqL2SqAbsLoss", "s": dyscalar(rng), "op": op, "y": [float(v) for v in common.dyadic(rng, (m,), bits=2, scale=2.0)], "w": w}
-    return {"k": "loss", "s": dyscalar(rng), "op": op, "y": enc(dy(rng, (m,), cplx)), "f": gen_tree(rng, m, cplx, depth - 1)}
+    if r < 0.30:
+        return {"k": "sqL2Loss", "s": dyscalar(rng), "op": op, "y": enc(dy(rng, (m,), cplx)), "w": _gen_w(rng, m)}
+    if r < 0.42:
+        return {"k": "sqL2SqAbsLoss", "s": dyscalar(rng), "op": op, "y": [float(v) for v in common.dyadic(rng, (m,), bits=2, scale=2.0)], "w": _gen_w(rng, m)}
+    if r < 0.50:
+        return {"k": "sqL2AbsLoss", "s": dyscalar(rng), "op": op, "y": [float(v) for v in np.abs(common.dyadic(rng, (m,), bits=2, scale=2.0))], "w": _gen_w(rng, m)}
+    return {"k": "loss", "s": dyscalar(rng), "op": op, "y": enc(dy(rng, (m,), cplx)), "f": gen_tree(rng, m, cplx, depth - 1, True)}
 
 
 def gen_block_tree(rng, sizes, cplx, depth):
@@ -179,6 +228,41 @@ def build_op(op, n, cplx, single=False):
     return linop.MatrixOperator(snp.array(np.asarray(M, dtype=dt)), input_cols=0)
 
 
+def nlop_parts(F, n, cplx=True):
+    m = F["m"]
+    return tuple(dec(F[k], (m, n), cplx) for k in ("A", "B", "C")) + (dec(F["c"], (m,), cplx),)
+
+
+def nlop_eval(F, x):
+    """numpy value of the operator recipe at a flat vector"""
+    x = np.asarray(x, dtype=np.complex128).ravel()
+    A, B, C, c = nlop_parts(F, x.size)
+    return A @ x + B @ np.conj(x) + (C @ x) ** 2 + c
+
+
+def build_nlop(F, n, cplx, single=False):
+    """operator recipe -> scico.operator.Operator (arbitrary eval_fn: scico only forwards jax.jvp/vjp)"""
+    import jax.numpy as jnp
+    from scico.operator import Operator
+
+    dt = dtype_of(cplx, single)
+    A, B, C, c = (jnp.asarray(a, dtype=dt) for a in nlop_parts(F, n, cplx))
+
+    def ev(x):
+        return A @ x + B @ jnp.conj(x) + (C @ x) ** 2 + c
+
+    return Operator((n,), output_shape=(F["m"],), eval_fn=ev, input_dtype=dt, output_dtype=dt)
+
+
+def nlop_model(F, n):
+    A, B, C, c = nlop_parts(F, n)
+    return {"A": cmat(A), "B": cmat(B), "C": cmat(C), "c": cv(c)}
+
+
+def has_kind(t, kind):
+    return kind in kinds(t)
+
+
 def op_matrix(op, n):
     if op["kind"] == "none":
         return np.eye(n, dtype=np.complex128)
@@ -218,7 +302,19 @@ def build(t, n, cplx, single=False):
         return build(t["f"], n, cplx, single) + build(t["g"], n, cplx, single)
     if k == "sepN":
         return functional.SeparableFunctional([build(f, m, cplx, single) for f, m in zip(t["fs"], t["sizes"])])
-    if k in ("loss", "sqL2Loss", "sqL2SqAbsLoss"):
+    if k in ("lossOp", "sqL2LossOp"):
+        F = build_nlop(t["F"], n, cplx, single)
+        m = t["F"]["m"]
+        y = snp.array(np.asarray(dec(t["y"], (m,), cplx), dtype=dt))
+        if k == "lossOp":
+            return loss.Loss(y=y, A=F, f=build(t["f"], m, cplx, single), scale=t["s"])
+        W = None if t.get("w") is None else linop.Diagonal(snp.array(np.array(t["w"], dtype=rdt)), input_dtype=dt)
+        return loss.SquaredL2Loss(y=y, A=F, scale=t["s"], W=W)
+    if k == "poisson":
+        op = t["op"]
+        A = build_op(op, n, cplx, single)
+        return loss.PoissonLoss(y=snp.array(np.array(t["y"], dtype=rdt)), A=A, scale=t["s"])
+    if k in ("loss", "sqL2Loss", "sqL2SqAbsLoss", "sqL2AbsLoss"):
         op = t["op"]
         m = op["m"]
         A = build_op(op, n, cplx, single)
@@ -232,6 +328,8 @@ def build(t, n, cplx, single=False):
         y = snp.array(np.array(t["y"], dtype=rdt))
         if A is None:
             A = linop.Identity((n,), input_dtype=dt)
+        if k == "sqL2AbsLoss":
+            return loss.SquaredL2AbsLoss(y=y, A=A, scale=t["s"], W=W)
         return loss.SquaredL2SquaredAbsLoss(y=y, A=A, scale=t["s"], W=W)
     raise common.Infra(f"unknown recipe node {k}")
 
@@ -262,7 +360,24 @@ def to_model(t, n):
             return to_model(fs[0], sizes[0])
         rest = {"k": "sepN", "fs": fs[1:], "sizes": sizes[1:]}
         return {"k": "sep", "n1": sizes[0], "n2": sum(sizes[1:]), "f": to_model(fs[0], sizes[0]), "g": to_model(rest, sum(sizes[1:]))}
-    if k in ("loss", "sqL2Loss", "sqL2SqAbsLoss"):
+    if k in ("lossOp", "sqL2LossOp"):
+        m = t["F"]["m"]
+        out = {"k": k, "m": m, "s": f2b(t["s"]), "F": nlop_model(t["F"], n), "y": cv(dec(t["y"]))}
+        if k == "lossOp":
+            out["f"] = to_model(t["f"], m)
+        else:
+            out["w"] = [f2b(1.0)] * m if t.get("w") is None else [f2b(v) for v in t["w"]]
+        return out
+    if k == "poisson":
+        from scipy.special import gammaln
+
+        op = t["op"]
+        m = op["m"]
+        y = np.array(t["y"], dtype=np.float64)
+        # `self.const = gammaln(y + 1)` is a constant of the object; it enters the value only
+        return {"k": "poisson", "m": m, "s": f2b(t["s"]), "A": cmat(op_matrix(op, n)), "y": [f2b(v) for v in y],
+                "cst": [f2b(float(v)) for v in gammaln(y + 1.0)]}
+    if k in ("loss", "sqL2Loss", "sqL2SqAbsLoss", "sqL2AbsLoss"):
         op = t["op"]
         m = op["m"]
         A = cmat(op_matrix(op, n))
@@ -271,7 +386,7 @@ def to_model(t, n):
         w = [f2b(1.0)] * m if t.get("w") is None else [f2b(v) for v in t["w"]]
         if k == "sqL2Loss":
             return {"k": "sqL2Loss", "m": m, "s": f2b(t["s"]), "A": A, "y": cv(dec(t["y"])), "w": w}
-        return {"k": "sqL2SqAbsLoss", "m": m, "s": f2b(t["s"]), "A": A, "y": [f2b(v) for v in t["y"]], "w": w}
+        return {"k": k, "m": m, "s": f2b(t["s"]), "A": A, "y": [f2b(v) for v in t["y"]], "w": w}
     raise common.Infra(f"unknown recipe node {k}")
 
 
@@ -318,8 +433,18 @@ def margin(t, x):
     if k == "loss":
         r = op_matrix(t["op"], x.size) @ x - dec(t["y"])
         return margin(t["f"], r)
-    if k in ("sqL2Loss", "sqL2SqAbsLoss"):
+    if k in ("sqL2Loss", "sqL2SqAbsLoss", "sqL2LossOp"):
         return inf, inf
+    if k == "sqL2AbsLoss":
+        r = op_matrix(t["op"], x.size) @ x
+        return (float(np.min(np.abs(r))) if r.size else inf), inf
+    if k == "poisson":
+        r = op_matrix(t["op"], x.size) @ x
+        if np.any(np.abs(r.imag) > 0) or np.any(r.real <= 0):
+            return 0.0, inf
+        return float(np.min(r.real)), inf
+    if k == "lossOp":
+        return margin(t["f"], nlop_eval(t["F"], x) - dec(t["y"]))
     raise common.Infra(f"unknown recipe node {k}")
 
 
